@@ -13,7 +13,7 @@ import valgen
 import xv
 from xv import log
 
-CORPUS_VERSION = "7"
+CORPUS_VERSION = "8"
 
 BOUNDARY = [0, 1, 2, 3, 0xffff, 0x10000, 0x7fffffff, 0x80000000, 0xfffffffe, 0xffffffff]
 
@@ -200,6 +200,14 @@ def special_cases(obs, types, failed_idx, rng):
                                        ("Alias", "smallfh", ("OpaqueV", b"xy"))])
             out.append({"spec": i, "type": "bigwrap", "off": 0, "input": valgen.enc(x), "kind": "valid_big",
                         "x": x, "expect": valgen.expected_line(x, 0)})
+        if "holder0" in types[i]:
+            # zero-wire-size elements: any count is a valid encoding, also one larger than the
+            # number of bytes that follow
+            for k in (5, 9, 40):
+                x = ("Struct", "holder0", [("ArrV", [("Struct", "marker", [("OpaqueF", b"")])] * k), ("U32", 7)])
+                for off, sfx in ((0, b""), (3, b"\x01"), (0, b"\x00" * 12)):
+                    out.append({"spec": i, "type": "holder0", "off": off, "input": valgen.enc(x) + sfx,
+                                "kind": "valid" if not sfx else "valid_ctx", "x": x, "expect": valgen.expected_line(x, off)})
         if "zs" in types[i]:
             for cnt in (3, 0x800):
                 out.append({"spec": i, "type": "zs", "off": 0, "input": struct.pack(">I", cnt) + b"\0" * 8, "kind": "zerosize"})
